@@ -16,6 +16,7 @@ CONSTANTS Ws, Light        \* Light: emit the scenario with its DC gains only (t
 
 WsQuick == {R0, Q(1,2), RI(2)}
 WsAll == {R0, Q(1,2), R1, RI(2), RI(10)}
+WsOne == {R0, RI(2)}          \* one frequency away from 0: the quick tier's five-branch family (at w = 0 a capacitor current is 0 whatever row is used)
 
 Check == (ShapeC /\ InSSDomain(cs)) =>
   LET ref == RefOf(Listed) IN
